@@ -18,8 +18,8 @@
    auxiliary of each chain stays free (zero or any garbage).  A chain in which a zero
    link precedes further counted records is therefore outside the *_exact theorems;
    what the reader does there when the zero link sits on the chain's last entry and
-   only the COUNT is too large is stated by the two *_ended_at_zero_link theorems
-   (behaviour of /repo commit eedb89f; C19 owns that finding). *)
+   only the COUNT (sh_info, or an entry's vd_cnt / vn_cnt) is too large is stated by the four
+   *_ended_at_zero_link theorems (behaviour of /repo commit eedb89f; C19 owns that finding). *)
 From PV Require Import Base.Fmt Base.Outcome Base.Enum Gen.ElfLayouts Spec.ElfGabi Spec.C15Versions
      Model.C15GnuVersions Proofs.ElfLayoutFacts Proofs.C15Proofs.
 Open Scope Z_scope.
@@ -93,6 +93,25 @@ Theorem C15_verneed_ended_at_zero_link : forall le is64 img shdrs n needs,
   file_verneed_versions le is64 img shdrs (Z.of_nat n) = Ok (map verneed_view needs).
 Proof. exact verneed_section_ended. Qed.
 Print Assumptions C15_verneed_ended_at_zero_link.
+
+(* the auxiliary iterator (GNUVersionSection._iter_version_auxiliaries, on the section object) asked for
+   MORE auxiliaries than the chain holds, the chain's last auxiliary carrying a zero vda_next / vna_next:
+   exactly the chain's auxiliaries are yielded *)
+Theorem C15_verdaux_ended_at_zero_link : forall le is64 img st auxs off extra,
+  ends_with_zero vda_next auxs = true ->
+  verdaux_chain le img (sh_offset st) off auxs = true ->
+  iter_version_auxiliaries (verdef_cfg le is64) img st (List.length auxs + extra) off
+  = Ok (map verdaux_view auxs).
+Proof. exact verdaux_chain_ended. Qed.
+Print Assumptions C15_verdaux_ended_at_zero_link.
+
+Theorem C15_vernaux_ended_at_zero_link : forall le is64 img st auxs off extra,
+  ends_with_zero vna_next auxs = true ->
+  vernaux_chain le img (sh_offset st) off auxs = true ->
+  iter_version_auxiliaries (verneed_cfg le is64) img st (List.length auxs + extra) off
+  = Ok (map vernaux_view auxs).
+Proof. exact vernaux_chain_ended. Qed.
+Print Assumptions C15_vernaux_ended_at_zero_link.
 
 (* ---- the version-symbol table: one (index, name) per dynamic symbol ----
    The table's own size decides how many entries are yielded (sh_size / sh_entsize of the version
